@@ -56,7 +56,7 @@ Proof.
     replace (an * q + s * (bn * p)) with (s * (bn * p) + an * q) by ring.
     rewrite Z.gcd_add_mult_diag_r.
     apply gcd1_mul_r.
-    - destruct Hs; subst s; [apply Z.gcd_1_r | rewrite Z.gcd_opp_r; apply Z.gcd_1_r].
+    - destruct Hs; subst s; [apply Z.gcd_1_r | change (-1) with (Z.opp 1); rewrite Z.gcd_opp_r; apply Z.gcd_1_r].
     - apply gcd1_mul_r; rewrite Z.gcd_comm; [exact Hbnq | exact Hpq]. }
   assert (Hn : Z.gcd n (p * q) = 1) by (apply gcd1_mul_r; auto).
   assert (Hgpq : Z.gcd (Z.gcd n (c * p * q)) (p * q) = 1).
@@ -91,3 +91,9 @@ Proof. intros. apply Z.divide_pos_le; [lia | apply Z.gcd_divide_r]. Qed.
 
 Lemma div_mul_exact a g : g <> 0 -> (g | a) -> g * (a / g) = a.
 Proof. intros Hg [k ->]. rewrite Z.div_mul by auto. ring. Qed.
+
+Lemma gcd_pos_r_abs n d : d <> 0 -> 0 < Z.gcd n d.
+Proof.
+  intros. pose proof (Z.gcd_nonneg n d).
+  assert (Z.gcd n d <> 0) by (intro E; apply Z.gcd_eq_0_r in E; lia). lia.
+Qed.
